@@ -2,7 +2,7 @@
 import numpy as np
 import impl, cases
 from gen import rng_for
-from .common import tolist, keyword_call_differs
+from .common import tolist, keyword_call_differs, history_differs, transform_primers, api_names
 
 LEAN = "PystogVerif.Props.C05"
 RK, GK = ["S", "F", "FK", "DCS"], ["g", "G", "GK"]
@@ -43,6 +43,12 @@ def evaluate(case):
         xr, v, dv = core(x, f, xo, df, **kw)
         if Y != hub_out:
             v, dv = getattr(cv, f"{hub_out}_to_{Y}")(xr, v, dv, **kw)
+    names = api_names(case["entry"]) or []
+    dkey = names[3] if len(names) > 3 else None
+    with np.errstate(all="ignore"):
+        if len(x) <= 200 and history_differs("Transformer", name, (x, y, xo), dict(kw, **({dkey: dy} if dkey and dy is not None else {})),
+                                             transform_primers(name, x, y, xo, dkey, dy, kw={k: v for k, v in kw.items() if k in ("rho", "<b_coh>^2", "<b_tot^2>")})):
+            fails.append(f"{name}: the caller's options are not the only options in force — the result depends on calls the same Transformer served before")
     for k, (a, b) in enumerate(zip(got, (xr, v, dv))):
         if a is None or b is None or not np.array_equal(np.asarray(a), np.asarray(b), equal_nan=True):
             fails.append(f"{name}: output {k} differs from conversion/core/conversion composition with the same options")
